@@ -12,11 +12,10 @@ EnvDirs == IF "C06_DIR" \in DOMAIN IOEnv
 D1 == {1}
 D2 == {1, 2}
 
-(* the bounds of the model (generation pool, version range) are never what stops a step: a revision in flight can always be
-   applied and an allowed environment write always finds an id / a version *)
+(* the bounds of the model (generation pool, version range) are never what stops a step: an allowed environment write
+   always finds an id / a version (and NotStarved: so does every conflict resolution) *)
 PoolNotExhausted ==
-  /\ \A x \in Dirs : \A m \in msgs[x] : (running /\ m.st = "sent") => ENABLED ImplApply(x, m)
-  /\ edits < MaxEdits => \A p \in Peers, d \in Docs :
+  edits < MaxEdits => \A p \in Peers, d \in Docs :
        LET s == doc[p][d] IN
        IF Proto = "v3"
        THEN /\ Cands(revs, d, s.cur, 99, FALSE, s.cur.g + 1) # {}
